@@ -11,6 +11,19 @@ Line-protocol driver for the C12 model (merge of partial query results above the
   result <id> all=<0|1> limit=<n> sel=<fn>:<field>,.. ord=<fn>:<field>:<0|1>,.. [hav=<op>:<thr>]
   plan-shape <live> <n>                flow.BuildPhysicalPlan: number of targets / executors / distinctness
   route <n> <shard>:<hash> ...         row routing (see Routing below)
+  tm-add <id> | tm-remove <id>         TaskManager.AddTask / RemoveTask for context `id`'s request
+  tm-recv <id> nf|er|bad|ok ..         TaskManager.Receive: `delivered <state>` or `dropped <state>`
+  families <id>:<ts>:<fam> ...         the family iterator over one shard group (rows in batch order;
+                                       fam = CalcFamilyTime(ts), computed by the real calculator)
+  lc-new <k> <holes>                   a leaf's grouping context for k group-by keys; holes = `-` or
+                                       <key>:<id>,.. = ids the node's dictionary has no value for
+  lc-fork | lc-ids <id>,..  | lc-complete <-|failing key> | lc-send | lc-tr <id>,..
+                                       ForkGroupingTask / NewSeriesAggregator's id collection /
+                                       CompleteGroupingTask / SendResponse(nil) / getTagValues
+                                       state line: pend= rem= closed= ans= ids= maps=
+  li-new <k> <holes> | li-spawn | li-ids <id>,.. | li-dec | li-load | li-body <-|failing key> | li-send
+                                       the same protocol step by atomic step (Dec / Load / body of a
+                                       completion are separate): state line + ndec= nload0=
 
   <payload> := (s:<field>:<ftype>:<fn>,<fn>.. | h:<tags>=<hash> | t:<tags> | f:<field>:<ftype>
                | p:<kind>:<slot>=<v>,<slot>=<v>..)*       ("-" = empty list / empty tags)
@@ -19,6 +32,9 @@ State line after `new`/`resp`:  exp=<n> tol=<n> err=<-|nf|er> agg=<0|1> done=<0|
 -/
 import LinVerif.Util.Proto
 import LinVerif.Model.RootMerge
+import LinVerif.Model.LeafCollect
+import LinVerif.Model.RowRoute
+import LinVerif.Model.TaskMgr
 import LinVerif.Generated.C12
 
 namespace LinVerif.Driver.C12
@@ -28,6 +44,10 @@ structure DSt where
   ctxs : List (Nat × Ctx) := []
   tags : List String := []      -- interned group tags
   names : List String := []     -- interned field names
+  tmReg : List Nat := []                     -- context ids registered with the task manager
+  li : Option LeafCollect.GI := none         -- the same at the granularity of atomic steps
+  lc : Option LeafCollect.G := none          -- the leaf grouping context of the current case
+  lcHoles : List (Nat × Nat) := []           -- (key index, tag value id) without a dictionary value
 
 def internIdx (l : List String) (s : String) : List String × Nat :=
   match l.idxOf? s with
@@ -295,6 +315,158 @@ def doPlan (st : DSt) (all : Bool) (selS schemaS : String) : DSt × String :=
     | .ok specs => (st2, " ".intercalate ("specs" :: (sortStr (specs.map (showSpec st2))).map Prod.snd))
   | _, _ => (st, "bad-op")
 
+/-! the task manager in front of a context (Model/TaskMgr.lean) -/
+
+def parseResp (st : DSt) (kind : String) (rest : List String) : Option (DSt × Resp) :=
+  match kind, rest with
+  | "nf", [] => some (st, .notFound)
+  | "er", [] => some (st, .error)
+  | "bad", [] => some (st, .bad)
+  | "ok", cap :: toks =>
+    match cap.toNat?, parsePayload st toks with
+    | some cap, some (st', p) => some (st', .ok { cap := cap, specs := p.specs, series := p.series })
+    | _, _ => none
+  | _, _ => none
+
+def stepTm (st : DSt) (ws : List String) : DSt × String :=
+  match ws with
+  | ["tm-add", id] =>
+    match id.toNat? with
+    | some id => ({ st with tmReg := id :: st.tmReg.filter (· != id) }, "ok")
+    | none => (st, "bad-op")
+  | ["tm-remove", id] =>
+    match id.toNat? with
+    | some id => ({ st with tmReg := st.tmReg.filter (· != id) }, "ok")
+    | none => (st, "bad-op")
+  | "tm-recv" :: id :: kind :: rest =>
+    match id.toNat? with
+    | none => (st, "bad-op")
+    | some id =>
+      match getCtx st id, parseResp st kind rest with
+      | some c, some (st', r) =>
+        let s0 : TaskMgr.S := { registered := st.tmReg.contains id, ctx := c, dropped := 0 }
+        let s1 := s0.step Generated.C12.completeKeepsError variant (.recv r)
+        (putCtx st' id s1.ctx, (if s1.dropped == 0 then "delivered " else "dropped ") ++ showState s1.ctx)
+      | _, _ => (st, "bad-op")
+  | _ => (st, "bad-op")
+
+/-! the leaf's grouping-collect protocol (Model/LeafCollect.lean) -/
+
+/-- which condition guards the wait in waitCollectGroupingTagsCompleted, from the regenerated fact -/
+def currentWait : LeafCollect.WaitOn :=
+  if Generated.C12.leafWaitCond = "ctx.StorageExecuteCtx.Query.HasGroupBy()" then .hasGroupBy else .hasIDs
+
+def insNat (x : Nat) : List Nat → List Nat
+  | [] => [x]
+  | y :: ys => if x ≤ y then x :: y :: ys else y :: insNat x ys
+
+def sortNat (l : List Nat) : List Nat := l.foldr insNat []
+
+def showNats (l : List Nat) : String :=
+  if l.isEmpty then "-" else ".".intercalate ((sortNat l).map toString)
+
+def showLc (g : LeafCollect.G) : String :=
+  let a := match g.answer with
+    | none => "-" | some .ok => "ok" | some .collectErr => "cerr" | some .deadline => "deadline"
+  let ids := if g.ids.isEmpty then "-" else ";".intercalate (g.ids.map showNats)
+  let maps := if g.maps.isEmpty then "-" else
+    ";".intercalate (g.maps.map (fun m => match m with | none => "nil" | some l => showNats l))
+  s!"pend={g.pending} rem={g.remaining} closed={g.closes} ans={a} ids={ids} maps={maps}"
+
+def parseNats (s : String) : Option (List Nat) :=
+  if s = "-" then some [] else (s.splitOn ",").mapM String.toNat?
+
+def lcKnown (st : DSt) : Nat → Nat → Bool := fun k v => !(st.lcHoles.contains (k, v))
+
+def stepLc (st : DSt) (ws : List String) : DSt × String :=
+  match ws with
+  | ["lc-new", k, holes] =>
+    let hs? : Option (List (Nat × Nat)) :=
+      if holes = "-" then some [] else
+      (holes.splitOn ",").mapM (fun w => match w.splitOn ":" with
+        | [a, b] => do let x ← a.toNat?; let y ← b.toNat?; some (x, y)
+        | _ => none)
+    match k.toNat?, hs? with
+    | some k, some hs =>
+      let g := LeafCollect.G.new k
+      ({ st with lc := some g, lcHoles := hs }, showLc g)
+    | _, _ => (st, "bad-op")
+  | ["lc-fork"] =>
+    match st.lc with
+    | some g => let g' := g.fork; ({ st with lc := some g' }, showLc g')
+    | none => (st, "bad-op")
+  | ["lc-ids", vs] =>
+    match st.lc, parseNats vs with
+    | some g, some vs =>
+      if vs.length != g.nkeys || g.nkeys == 0 then (st, "bad-op") else
+      let g' := g.addIDs vs; ({ st with lc := some g' }, showLc g')
+    | _, _ => (st, "bad-op")
+  | ["lc-complete", f] =>
+    let f? : Option (Option Nat) := if f = "-" then some none else (f.toNat?).map some
+    match st.lc, f? with
+    | some g, some f => let g' := g.complete (lcKnown st) f; ({ st with lc := some g' }, showLc g')
+    | _, _ => (st, "bad-op")
+  | ["lc-send"] =>
+    match st.lc with
+    | some g => let g' := g.send currentWait; ({ st with lc := some g' }, showLc g')
+    | none => (st, "bad-op")
+  | ["lc-tr", vs] =>
+    match st.lc, parseNats vs with
+    | some g, some vs =>
+      if vs.length != g.nkeys || g.nkeys == 0 then (st, "bad-op") else
+      let (g', out) := g.translate vs
+      ({ st with lc := some g' },
+        ",".intercalate (out.map (fun o => match o with | some v => toString v | none => "nf")))
+    | _, _ => (st, "bad-op")
+  | _ => (st, "bad-op")
+
+/-- the rows of one shard group through BrokerBatchShardFamilyIterator (Model/RowRoute.lean) -/
+def doFamilies (toks : List String) : String :=
+  let parsed? : Option (List (Nat × Nat × Nat)) := toks.mapM (fun w => match w.splitOn ":" with
+    | [a, b, c] => do let x ← a.toNat?; let y ← b.toNat?; let z ← c.toNat?; some (x, y, z)
+    | _ => none)
+  match parsed? with
+  | none => "bad-op"
+  | some ps =>
+    if ps.isEmpty then "bad-op" else
+    let fam : Nat → Nat := fun t => ((ps.find? (fun p => p.2.1 == t)).map (fun p => p.2.2)).getD 0
+    let groups := RowRoute.familyGroups fam (ps.map (fun p => (p.1, p.2.1)))
+    " ".intercalate (groups.map (fun g => s!"{g.1}:{",".intercalate ((sortNat (g.2.map Prod.fst)).map toString)}"))
+
+def showLi (s : LeafCollect.GI) : String := s!"{showLc s.g} ndec={s.ndec} nload0={s.nload0}"
+
+def stepLi (st : DSt) (ws : List String) : DSt × String :=
+  let ev? : Option LeafCollect.EvI := match ws with
+    | ["li-spawn"] => some .spawn
+    | ["li-ids", vs] => (parseNats vs).map .ids
+    | ["li-dec"] => some .dec
+    | ["li-load"] => some .load
+    | ["li-body", f] => if f = "-" then some (.body none) else (f.toNat?).map (fun x => .body (some x))
+    | ["li-send"] => some .send
+    | _ => none
+  match ws with
+  | ["li-new", k, holes] =>
+    let hs? : Option (List (Nat × Nat)) :=
+      if holes = "-" then some [] else
+      (holes.splitOn ",").mapM (fun w => match w.splitOn ":" with
+        | [a, b] => do let x ← a.toNat?; let y ← b.toNat?; some (x, y)
+        | _ => none)
+    match k.toNat?, hs? with
+    | some k, some hs =>
+      let s := LeafCollect.GI.new k
+      ({ st with li := some s, lcHoles := hs }, showLi s)
+    | _, _ => (st, "bad-op")
+  | _ =>
+    match st.li, ev? with
+    | some s, some e =>
+      let wellFormed := match e with
+        | .ids vs => vs.length == s.g.nkeys && s.g.nkeys != 0
+        | _ => true
+      if !wellFormed then (st, "bad-op") else
+      let s' := s.step (lcKnown st) currentWait e
+      ({ st with li := some s' }, showLi s')
+    | _, _ => (st, "bad-op")
+
 def step (st : DSt) (ws : List String) : DSt × String :=
   match ws with
   | ["plan", a, s, sc] =>
@@ -373,6 +545,8 @@ def step (st : DSt) (ws : List String) : DSt × String :=
       (st, s!"targets={plan.length} executors={(executors plan).length} distinct={if (plan.map Prod.fst).eraseDups.length == plan.length then 1 else 0}")
     | _, _ => (st, "bad-op")
   | "route" :: rest => (st, doRoute rest)
+  | "families" :: rest => (st, doFamilies rest)
+  | w :: _ => if w.startsWith "li-" then stepLi st ws else if w.startsWith "lc-" then stepLc st ws else if w.startsWith "tm-" then stepTm st ws else (st, "bad-op")
   | _ => (st, "bad-op")
 
 def main (_args : List String) : IO Unit := Proto.runLoop ({} : DSt) step
